@@ -148,6 +148,37 @@ pub fn grid() -> Vec<Parts> {
             }
         }
     }
+    // derived targets: the text of one component recurs inside another (a mapping that locates components by text search goes wrong)
+    for s in SCHEMES {
+        for h in ["printer.example.com", "h", "localhost", "192.168.1.20", "a-b.c_d", "lab+3d.example.com", "631"] {
+            for p in [None, Some("631"), Some("8631")] {
+                for pa in ["", "/a/b", "/h", "/printers/h:631@h"] {
+                    for q in [None, Some("TAINTq=h")] {
+                        for u in [format!("{h}:TAINTsecret"), format!("TAINT{h}"), h.to_string(), format!("x{h}y:TAINT"), "631:TAINT631".to_string(), "us+er:TAINTp+w".to_string(), format!("TAINT:{h}:631")] {
+                            v.push(Parts { scheme: s.to_string(), userinfo: Some(u), host: h.to_string(), port: p.map(|x| x.to_string()), path: pa.to_string(), query: q.map(|x| x.to_string()) });
+                        }
+                    }
+                }
+            }
+        }
+    }
+    // special paths: percent-escapes at the very end / start, sub-delimiters, dot segments, doubled and trailing slashes
+    for s in SCHEMES {
+        for h in ["printer.example.com", "[::1]", "10.0.0.7"] {
+            for p in [None, Some("631")] {
+                for u in [None, Some("user:TAINTpw")] {
+                    for pa in [
+                        "/caf%C3%A9", "/x%41", "/%41", "/a%2Fb%2F", "/sp%20", "/%7e", "/%7E/", "/a+b", "/a;b=c", "/a:b@c", "/@", "/:", "/a,b", "/!$&'()*", "/.", "/..", "/a/./b",
+                        "/a/../b", "/a/", "//", "/~", "/a%25", "/%25", "/%2541", "/a=b&c=d", "/a@b:631/c",
+                    ] {
+                        for q in [None, Some("TAINTq%41")] {
+                            v.push(Parts { scheme: s.to_string(), userinfo: u.map(|x| x.to_string()), host: h.to_string(), port: p.map(|x| x.to_string()), path: pa.to_string(), query: q.map(|x| x.to_string()) });
+                        }
+                    }
+                }
+            }
+        }
+    }
     v
 }
 
